@@ -57,8 +57,15 @@ def state_equal(a, b) -> bool:
 
 
 def rand_workload(rng: random.Random, W: int, max_writes: int = 3) -> Dict[str, Any]:
-    return {"tensors": [[rng.choice([1, 2, 5, 8]) for _ in range(rng.randint(1, max_writes))] for _ in range(W)],
+    spec = {"tensors": [[rng.choice([1, 2, 5, 8]) for _ in range(rng.randint(1, max_writes))] for _ in range(W)],
             "seed": rng.randrange(1000), "nobatch": rng.random() < 0.8}
+    # scheduling knobs: a small I/O concurrency leaves a backlog of staged buffers for PendingIOWork.complete(); a small
+    # memory budget makes staging proceed in waves, so writes complete (or fail) while the rank is still staging
+    if rng.random() < 0.35:
+        spec["conc"] = rng.choice([1, 1, 2])
+    if rng.random() < 0.25:
+        spec["budget"] = rng.choice([24, 40, 70])
+    return spec
 
 
 # --------------------------------------------------------------------------------------------------
@@ -153,7 +160,7 @@ def make_chooser(desc: Dict[str, Any]):
 def run_round(job: detsim.Job, mode: str, path: str, spec, chooser_desc, faults=(), fresh_read=True,
               boring_first=False) -> detsim.RunResult:
     fn = (sync_fn if mode == "sync" else async_fn)(path, spec, fresh_read)
-    with _sim.knobs(nobatch=bool(spec.get("nobatch", True)), budget=spec.get("budget")):
+    with _sim.knobs(nobatch=bool(spec.get("nobatch", True)), budget=spec.get("budget"), conc=spec.get("conc")):
         return job.run(fn, chooser=make_chooser(chooser_desc), faults=faults, boring_first=boring_first)
 
 
